@@ -1560,3 +1560,8 @@ MUTANTS += [
  dict(name='benign-r5-C11-helper-wrong-base', prop='C11', expect='VIOLATION property=C11', patch='selftest/fixes/benign-r5-C11.patch',
       edits=[('src/wkdibe/api.cpp', 'term.multiply(base, id);', 'term.multiply(acc, id);')]),
 ]
+
+MUTANTS += [
+ dict(name='c13-skip-loop-passes-equal', prop='C13', expect='strictly below',
+      edits=[('src/wkdibe/api.cpp', 'while (k != attrs->length && attrs->attrs[k].idx < sk.b[i].idx) {', 'while (k != attrs->length && attrs->attrs[k].idx <= sk.b[i].idx) {')]),
+]
